@@ -31,6 +31,8 @@ ReqCli(be, o, r) ==
     <<"C18.valid_options_exit_zero", r.exit = 0 /\ ~r.panic>>,
     <<"C18.four_files_under_given_names", r.exit = 0 => ExpectedFiles(o) \subseteq SeqRange(r.files)>>,
     <<"C18.files_are_strict_pem", r.exit = 0 => r.pemStrict>>,
+    (* the files are PEM texts that rcgen (its tool) produces: C14 speaks about them as well *)
+    <<"C14.cli_files_are_rfc7468_envelopes", r.exit = 0 => r.pemStrict>>,
     <<"C18.key_matches_cert", r.exit = 0 => r.eeKeyMatches /\ r.caKeyMatches>>,
     (* webpki is used with ring's verification algorithms, which do not include P-521: OpenSSL alone judges those *)
     <<"C18.ee_chains_to_ca", r.exit = 0 => r.chainOpenssl /\ (o.alg # "ecdsa-p521" => r.chainWebpki)>>,
